@@ -40,9 +40,13 @@ Statements (rest = the statements that follow, k = what falling off the end mean
   raise OverflowError(..) / ZeroDivisionError / NotImplementedError -> SRaise X.. (arguments dropped)
   for v in L: B (top level of the body only; no break/continue/else) -> Fixpoint <f>_loop over L whose
       other parameters are all variables live at loop entry: [] => rest, v :: L' => B with k = the
-      recursive call on L' with the current values of those variables.
+      recursive call on L' with the current values of those variables (whose kinds B must not change).
+Not translated: the constructors (max = 1 << bits), __call__, _visit (getattr dispatch), _visit_expr, gcd (while
+loop).  Their text is pinned by digest (PINS): src_pin_<class> : bool says whether it is still the recorded one.
+On any failure a definition-free IntExprSrc.v is written (no stale translation survives) and the error re-raised.
 """
 import ast
+import hashlib
 import os
 import re
 
@@ -65,6 +69,9 @@ NODEATTR = {'n': 'Z', 'ops': 'nodes', 'comparators': 'nodes', 'values': 'nodes'}
 KCLS = 'Add Sub Mult Div Mod Not Lt LtE Gt GtE Eq NotEq And Or Name Num'.split()
 CMP = {ast.Lt: '<?', ast.LtE: '<=?', ast.Gt: '>?', ast.GtE: '>=?', ast.Eq: '=?', ast.NotEq: '=?'}
 EXN = {'OverflowError': 'XOverflow', 'ZeroDivisionError': 'XZeroDiv', 'NotImplementedError': 'XNotImplemented'}
+# The untranslated parts (constructors, __call__, the getattr dispatch _visit, _visit_expr, gcd) are pinned: sha256 of the
+# ast.unparse (comments and layout do not count) of those definitions per class; Generated/IntExprSrc.v says whether each still has the recorded value.
+PINS = {'base': 'ecdb1b4fbe86095f', 'ev': '079209ff5684bb41', 'cd': '9233c044efeefca0', 'pe': 'f7c8d016e64aeb78'}
 FUNCS = {}   # (class prefix | None, python name) -> (coq name, context parameters, n fixed args, has vararg, value kind)
 
 
@@ -273,7 +280,9 @@ class Fn:
             return self.guard(self.take(), 'SNone' if kd == 'none' else 'SRet %s' % t)
         if isinstance(s, ast.Raise) and s.cause is None:
             x = s.exc.func if isinstance(s.exc, ast.Call) else s.exc
-            if isinstance(x, ast.Name) and x.id in EXN:
+            for a in s.exc.args if isinstance(s.exc, ast.Call) else []:
+                self.ex(a, env)                      # the arguments are dropped, but must be plain expressions
+            if isinstance(x, ast.Name) and x.id in EXN and not self.guards and not getattr(s.exc, 'keywords', None):
                 return 'SRaise ' + EXN[x.id]
         if isinstance(s, ast.Assert) and s.msg is None:
             c, g = self.truth(s.test, env), self.take()
@@ -357,7 +366,12 @@ class Fn:
         after = self.tr(rest, {n: kk for n, kk in env.items() if n != it}, k)
         head = lambda: ' '.join([name] + self.ctxlist() + [n for n, _ in state])
         benv = dict({n: kk for n, kk in env.items() if n != it}, **{v: 'node' if kd == 'nodes' else 'Z'})
-        body = self.tr(s.body, benv, lambda e: head() + ' l_')
+
+        def again(e):            # next iteration: every variable must still have the kind it had at loop entry
+            if any(e.get(n) != kk for n, kk in env.items() if n != it):
+                bad(s, 'loop body changes the kind of a variable')
+            return head() + ' l_'
+        body = self.tr(s.body, benv, again)
         if name in self.aux:
             bad(s, 'second loop')
         self.aux[name] = (state, kd, 'match l_ with\n| [] =>\n%s\n| %s :: l_ =>\n%s\nend' % (ind(after), v, ind(body)))
@@ -433,6 +447,11 @@ def generate():
             prefix, vk = CLASSES[top.name]
             if top.decorator_list or top.keywords or [ast.unparse(b) for b in top.bases] != ([] if prefix == 'base' else ['BaseEvaluator']):
                 bad(top, 'class header')
+            pinned = [s for s in top.body if isinstance(s, ast.FunctionDef) and s.name in SKIP]
+            pinned += [t for t in tree.body if isinstance(t, ast.FunctionDef) and t.name == 'gcd' and prefix == 'pe']
+            h = hashlib.sha256('\n'.join(ast.unparse(x) for x in pinned).encode()).hexdigest()[:16]
+            out += ['(* %s: %s unchanged? (%s) *)' % (top.name, ', '.join(x.name for x in pinned), h),
+                    'Definition src_pin_%s : bool := %s.\n' % (prefix, 'true' if h == PINS[prefix] else 'false')]
             for s in top.body:
                 if isinstance(s, ast.FunctionDef):
                     if s.name in SKIP:
